@@ -29,6 +29,7 @@ structure Sync (s1 s2 : Sess) : Prop where
   tags1 : ∀ x ∈ s1.buf, x.1 = true
   tags2 : ∀ x ∈ s2.buf, x.1 = true
   stream : ustream s1 = ustream s2
+  features : s1.features = s2.features
 
 def RelRes {α : Type} (r1 r2 : Res α) : Prop :=
   match r1, r2 with
@@ -105,7 +106,7 @@ theorem pull_sync (s1 s2 : Sess) (h : Sync s1 s2) : RelRes (pull s1) (pull s2) :
     obtain ⟨rfl, rfl⟩ := e1
     rw [p1, p2]
     refine ⟨rfl, ⟨h.state, h.tls1, h.tls2, h.hs, h.prot, h.oracle, h.negotiated, h.doRestart, h.first,
-      h.domain, h.captured, h.sni, ?_, t1, t2, ?_⟩⟩
+      h.domain, h.captured, h.sni, ?_, t1, t2, ?_, h.features⟩⟩
     · show Ev.deliver true false :: s1.trace = Ev.deliver true false :: s2.trace
       rw [h.trace]
     · show b1.map (·.2) ++ c1.flatten = b2.map (·.2) ++ c2.flatten
@@ -122,7 +123,7 @@ theorem write_sync (e : Bool → Ev) (s1 s2 : Sess) (h : Sync s1 s2) : RelRes (w
   rw [write_clear e s1 h.tls1, write_clear e s2 h.tls2]
   exact ⟨rfl, ⟨h.state, h.tls1, h.tls2, h.hs, h.prot, h.oracle, h.negotiated, h.doRestart, h.first,
     h.domain, h.captured, h.sni, by show e false :: s1.trace = e false :: s2.trace; rw [h.trace],
-    h.tags1, h.tags2, h.stream⟩⟩
+    h.tags1, h.tags2, h.stream, h.features⟩⟩
 
 theorem expectHdr_sync : ∀ n s1 s2, Sync s1 s2 → RelRes (expectHdr n s1) (expectHdr n s2) := by
   intro n
@@ -150,7 +151,7 @@ theorem expectHdr_sync : ∀ n s1 s2, Sync s1 s2 → RelRes (expectHdr n s1) (ex
 
 theorem chooseConfig_sync (s1 s2 : Sess) (h : Sync s1 s2) : Sync (chooseConfig s1) (chooseConfig s2) := by
   refine ⟨h.state, h.tls1, h.tls2, h.hs, h.prot, h.oracle, h.negotiated, h.doRestart, h.first, h.domain,
-    ?_, ?_, h.trace, h.tags1, h.tags2, h.stream⟩
+    ?_, ?_, h.trace, h.tags1, h.tags2, h.stream, h.features⟩
   · show (negotiateName s1.captured s1.domain).1 = (negotiateName s2.captured s2.domain).1
     rw [h.captured, h.domain]
   · show some (negotiateName s1.captured s1.domain).2 = some (negotiateName s2.captured s2.domain).2
@@ -168,7 +169,7 @@ theorem negotiateOne_sync (c : Cached) (res : NegRes) (s1 s2 : Sess) (h : Sync s
       ⟨hc.state, hc.tls1, hc.tls2, hc.hs, hc.prot, hc.oracle, hc.negotiated, hc.doRestart, hc.first,
         hc.domain, hc.captured, hc.sni,
         by show Ev.wStartTLS false :: (chooseConfig s1).trace = Ev.wStartTLS false :: (chooseConfig s2).trace; rw [hc.trace],
-        hc.tags1, hc.tags2, hc.stream⟩
+        hc.tags1, hc.tags2, hc.stream, hc.features⟩
     have hp := pull_sync _ _ hw
     generalize pull { chooseConfig s1 with trace := Ev.wStartTLS false :: (chooseConfig s1).trace } = r1 at hp
     generalize pull { chooseConfig s2 with trace := Ev.wStartTLS false :: (chooseConfig s2).trace } = r2 at hp
@@ -191,7 +192,7 @@ theorem negotiateOne_sync (c : Cached) (res : NegRes) (s1 s2 : Sess) (h : Sync s
     · split
       · exact ⟨rfl, ht⟩
       · exact ⟨rfl, ⟨h.state, h.tls1, h.tls2, h.hs, h.prot, h.oracle, h.negotiated, h.doRestart, h.first,
-          h.domain, h.captured, h.sni, ht, h.tags1, h.tags2, h.stream⟩⟩
+          h.domain, h.captured, h.sni, ht, h.tags1, h.tags2, h.stream, h.features⟩⟩
 
 theorem pickSet_sync (cfg : FCfg) (doTLS : Bool) (cache : List Cached) (s1 s2 : Sess) (h : Sync s1 s2) :
     pickSet cfg doTLS cache s1 = pickSet cfg doTLS cache s2 := by
@@ -233,7 +234,7 @@ theorem select_sync (cfg : FCfg) (doTLS listReq : Bool) (cache skipped : List Ca
         dsimp only
         have ho : Sync { s1 with oracle := orc' } { s2 with oracle := orc' } :=
           ⟨h.state, h.tls1, h.tls2, h.hs, h.prot, rfl, h.negotiated, h.doRestart, h.first, h.domain,
-            h.captured, h.sni, h.trace, h.tags1, h.tags2, h.stream⟩
+            h.captured, h.sni, h.trace, h.tags1, h.tags2, h.stream, h.features⟩
         have hn := negotiateOne_sync c res _ _ ho
         generalize negotiateOne c res { s1 with oracle := orc' } = r1 at hn
         generalize negotiateOne c res { s2 with oracle := orc' } = r2 at hn
@@ -253,7 +254,7 @@ theorem select_sync (cfg : FCfg) (doTLS listReq : Bool) (cache skipped : List Ca
                 { t2 with state := t2.state ||| mask, negotiated := c.id :: t2.negotiated } :=
               ⟨by show t1.state ||| mask = t2.state ||| mask; rw [hs.state], hs.tls1, hs.tls2, hs.hs, hs.prot,
                 hs.oracle, by show c.id :: t1.negotiated = c.id :: t2.negotiated; rw [hs.negotiated],
-                hs.doRestart, hs.first, hs.domain, hs.captured, hs.sni, hs.trace, hs.tags1, hs.tags2, hs.stream⟩
+                hs.doRestart, hs.first, hs.domain, hs.captured, hs.sni, hs.trace, hs.tags1, hs.tags2, hs.stream, hs.features⟩
             split
             · exact ⟨rfl, hs'⟩
             · exact ih _ _ hs'
@@ -291,6 +292,44 @@ theorem negotiateFeatures_sync (cfg : FCfg) (first : Bool) (s1 s2 : Sess) (h : S
               exact select_sync cfg _ _ _ _ _ _ _ hs
       | _ => exact ⟨rfl, hs.trace⟩
 
+theorem peekAdv_sync (cfg : FCfg) (s1 s2 : Sess) (h : Sync s1 s2) : peekAdv cfg s1 = peekAdv cfg s2 := by
+  unfold peekAdv
+  have hp := pull_sync s1 s2 h
+  cases h1 : pull s1 with
+  | stop w1 t1 =>
+    cases h2 : pull s2 with
+    | stop w2 t2 => rfl
+    | ok u2 t2 => rw [h1, h2] at hp; exact hp.elim
+  | ok u1 t1 =>
+    cases h2 : pull s2 with
+    | stop w2 t2 => rw [h1, h2] at hp; exact hp.elim
+    | ok u2 t2 =>
+      rw [h1, h2] at hp
+      obtain ⟨rfl, _⟩ := hp
+      cases u1 <;> rfl
+
+theorem addAdv_sync {α : Type} (ids : List Nat) (t : Bool) (r1 r2 : Res α) (h : RelRes r1 r2) :
+    RelRes (addAdv ids t r1) (addAdv ids t r2) := by
+  cases r1 with
+  | stop w1 t1 =>
+    cases r2 with
+    | stop w2 t2 => exact h
+    | ok a2 t2 => exact h.elim
+  | ok a1 t1 =>
+    cases r2 with
+    | stop w2 t2 => exact h.elim
+    | ok a2 t2 =>
+      obtain ⟨rfl, hs⟩ := h
+      exact ⟨rfl, ⟨hs.state, hs.tls1, hs.tls2, hs.hs, hs.prot, hs.oracle, hs.negotiated, hs.doRestart, hs.first,
+        hs.domain, hs.captured, hs.sni, hs.trace, hs.tags1, hs.tags2, hs.stream,
+        by show t1.features ++ _ = t2.features ++ _; rw [hs.features]⟩⟩
+
+theorem negotiateFeaturesAdv_sync (cfg : FCfg) (first : Bool) (s1 s2 : Sess) (h : Sync s1 s2) :
+    RelRes (negotiateFeaturesAdv cfg first s1) (negotiateFeaturesAdv cfg first s2) := by
+  unfold negotiateFeaturesAdv
+  rw [peekAdv_sync cfg s1 s2 h, h.tls1, h.tls2]
+  exact addAdv_sync _ _ _ _ (negotiateFeatures_sync cfg first s1 s2 h)
+
 /-- **One negotiator call in clear text does not depend on how the unit stream is cut.** -/
 theorem step_sync (cfg : FCfg) (fuel : Nat) (s1 s2 : Sess) (h : Sync s1 s2) :
     RelRes (step cfg fuel s1) (step cfg fuel s2) := by
@@ -313,7 +352,7 @@ theorem step_sync (cfg : FCfg) (fuel : Nat) (s1 s2 : Sess) (h : Sync s1 s2) :
       apply expectHdr_sync
       exact ⟨h.state, h.tls1, h.tls2, h.hs, h.prot, h.oracle, h.negotiated, h.doRestart, h.first,
         h.domain, h.captured, h.sni, by show Ev.wHdr false :: s1.trace = Ev.wHdr false :: s2.trace; rw [h.trace],
-        h.tags1, h.tags2, h.stream⟩
+        h.tags1, h.tags2, h.stream, h.features⟩
     · exact ⟨rfl, h⟩
   simp only
   generalize (if s1.doRestart then
@@ -340,10 +379,10 @@ theorem step_sync (cfg : FCfg) (fuel : Nat) (s1 s2 : Sess) (h : Sync s1 s2) :
       rw [hs.first]
       have hf : Sync { t1 with first := false } { t2 with first := false } :=
         ⟨hs.state, hs.tls1, hs.tls2, hs.hs, hs.prot, hs.oracle, hs.negotiated, hs.doRestart, rfl, hs.domain,
-          hs.captured, hs.sni, hs.trace, hs.tags1, hs.tags2, hs.stream⟩
-      have hn := negotiateFeatures_sync cfg t2.first _ _ hf
-      generalize negotiateFeatures cfg t2.first { t1 with first := false } = q1 at hn
-      generalize negotiateFeatures cfg t2.first { t2 with first := false } = q2 at hn
+          hs.captured, hs.sni, hs.trace, hs.tags1, hs.tags2, hs.stream, hs.features⟩
+      have hn := negotiateFeaturesAdv_sync cfg t2.first _ _ hf
+      generalize negotiateFeaturesAdv cfg t2.first { t1 with first := false } = q1 at hn
+      generalize negotiateFeaturesAdv cfg t2.first { t2 with first := false } = q2 at hn
       cases q1 with
       | stop w1 v1 =>
         cases q2 with
@@ -355,7 +394,7 @@ theorem step_sync (cfg : FCfg) (fuel : Nat) (s1 s2 : Sess) (h : Sync s1 s2) :
         | ok o2 v2 =>
           obtain ⟨rfl, hv⟩ := hn
           exact ⟨rfl, ⟨hv.state, hv.tls1, hv.tls2, hv.hs, hv.prot, hv.oracle, hv.negotiated, rfl, hv.first,
-            hv.domain, hv.captured, hv.sni, hv.trace, hv.tags1, hv.tags2, hv.stream⟩⟩
+            hv.domain, hv.captured, hv.sni, hv.trace, hv.tags1, hv.tags2, hv.stream, hv.features⟩⟩
 
 /-! ### from byte chunkings to unit segmentations -/
 
@@ -418,7 +457,7 @@ theorem initBytes_sync (tk : Tokeniser) (env : Env) (st0 : Mask) (cs1 cs2 : List
     Sync (initBytes tk env st0 cs1 prot oracle) (initBytes tk env st0 cs2 prot oracle) := by
   unfold initBytes
   rw [init_clear env st0 _ hk, init_clear env st0 _ hk]
-  refine ⟨rfl, rfl, rfl, rfl, rfl, rfl, rfl, rfl, rfl, rfl, rfl, rfl, rfl, ?_, ?_, ?_⟩
+  refine ⟨rfl, rfl, rfl, rfl, rfl, rfl, rfl, rfl, rfl, rfl, rfl, rfl, rfl, ?_, ?_, ?_, rfl⟩
   · intro x hx; cases hx
   · intro x hx; cases hx
   · simp only [ustream]
